@@ -16,7 +16,9 @@ RULE = ("history cases: an installed tree of 5 artifact paths (absent / regular 
         "written, every command, the swap-failure / auto-rollback / health warnings, and between WriteCurrentManifest "
         "and the completed-phase write), swap failure at artifact i forced "
         "through the filesystem (one-shot or persistent obstacle at <dir>/.<base>.new), restore failure likewise, five "
-        "health outcomes for each daemon start; explicit rollback with the same fault classes; operator edits; obstacle "
+        "health outcomes for each daemon start; version ids map to 16 confusable version strings (proper prefixes / suffixes "
+        "of each other, 0.13.1 vs 0.13.10 vs 0.13.01, case, leading v, leading / trailing blank, +dirty and git-describe "
+        "suffixes) and every ordered (installed, declared predecessor) pair is enumerated; explicit rollback with the same fault classes; operator edits; obstacle "
         "removal.  A systematic block enumerates every single fault/crash label x {rollback, failing rollback + "
         "rollback}.  name cases: every string of length <= 6 over {'.','/','a','\\\\'} plus structured and random names "
         "through safeTarEntryPath.  Non-trivial: a history in which at least one apply wrote the journal, or an accepted "
@@ -28,6 +30,7 @@ ASSUMPTIONS = ["rename(2) within a directory is atomic and the journal/snapshot 
                "the signature primitives (crypto/ecdsa, sha256) are correct: admission facts enter the model as booleans"]
 
 NP = 5
+NVER = 16   # version ids; the harness maps them to confusable strings (prefix / suffix / case / blank / +build / leading v)
 APPLY_FAIL = [1, 2, 3, 4, 5, 6, 7, 8]
 RB_FAIL = [11, 12, 13, 14, 15, 16, 17, 18]
 CRASH_A = [25, 26, 27, 28, 29, 30, 31, 32, 35, 35, 33, 34, 1, 2, 3, 4, 5, 7, 8, 51, 52, 53]
@@ -121,7 +124,9 @@ def rand_rollback(rng):
 
 def rand_history(rng):
     ops = []
-    guess = 1      # what the generator believes is installed (only steers the mix; the model decides)
+    v0 = rng.randrange(NVER)
+    guess = v0     # what the generator believes is installed (only steers the mix; the model decides)
+    prevs = []
     gen = 0
     nops = rng.choice([1, 2, 2, 3, 3, 4, 5, 6])
     heavy = rng.random() < 0.6
@@ -131,14 +136,14 @@ def rand_history(rng):
             gen += 1
             arts = rand_arts(rng, gen)
             kw = rand_faults(rng, arts, heavy)
-            to = guess + 1 if rng.random() < 0.9 else rng.randrange(1, 6)
+            to = rng.choice([v for v in range(NVER) if v != guess]) if rng.random() < 0.93 else guess
             pr = rng.random()
-            if pr < 0.55:
+            if pr < 0.50:
                 kw["prev"] = "-"
-            elif pr < 0.80:
+            elif pr < 0.75:
                 kw["prev"] = "%do" % guess
-            elif pr < 0.88:
-                kw["prev"] = "%do" % rng.choice([v for v in range(1, 7) if v != guess])
+            elif pr < 0.90:
+                kw["prev"] = "%do" % rng.choice([v for v in range(NVER) if v != guess])
             else:
                 kw["prev"] = "%d%s" % (guess, rng.choice("fhg"))
             if rng.random() < 0.12:
@@ -148,24 +153,25 @@ def rand_history(rng):
             if rng.random() < 0.07:
                 kw["hook"] = rng.choice("hm")
             if rng.random() < 0.08:
-                kw["exp"] = str(rng.choice([guess, guess, rng.randrange(1, 6)]))
+                kw["exp"] = str(rng.choice([guess, guess, rng.randrange(NVER)]))
             if rng.random() < 0.12:
                 kw["force"] = 1
             ops.append(mk_apply(to, arts, **kw))
             clean = not any(k in kw for k in ("fail", "crash", "ha", "ob", "sig", "tam", "hook")) and kw["prev"][-1] in "-o"
             if clean:
+                prevs.append(guess)
                 guess = to
         elif r < 0.85:
             ops.append(rand_rollback(rng))
-            if rng.random() < 0.5 and guess > 1:
-                guess -= 1
+            if prevs:
+                guess = prevs.pop()
         elif r < 0.92:
             ops.append("clear")
         else:
             p = rng.randrange(NP)
             s = rng.choice(["x", "r%d.%s" % (90 + p, rng.choice(FMODES)), "s%d" % (80 + p)])
             ops.append("edit p=%d f=%s" % (p, s))
-    return "h 1 %s ; %s" % (init_fs(rng), " ; ".join(ops))
+    return "h %d %s ; %s" % (v0, init_fs(rng), " ; ".join(ops))
 
 
 def systematic():
@@ -212,6 +218,15 @@ def systematic():
         out.append("h 1 %s ; %s ; %s" % (fs0, mk_apply(2, a2, sig=sig), mk_apply(2, a2)))
     for pv in ["2o", "1f", "1h", "1g", "1o", "0o"]:
         out.append("h 1 %s ; %s ; %s" % (fs0, mk_apply(2, a2, prev=pv), mk_rollback()))
+    # predecessor / ExpectedFrom comparison is exact: every ordered pair of the confusable version strings
+    a1 = [(0, 20, "0755", "o")]
+    for c in range(NVER):
+        out.append("h %d %s ; %s ; %s" % (c, fs0, mk_apply((c + 1) % NVER, a1, prev="%do" % c), mk_rollback()))
+        for pv in range(NVER):
+            if pv != c:
+                out.append("h %d %s ; %s" % (c, fs0, mk_apply((c + 5) % NVER if (c + 5) % NVER != pv else (c + 6) % NVER, a1, prev="%do" % pv)))
+        out.append("h %d %s ; %s ; %s" % (c, fs0, mk_apply((c + 1) % NVER, a1, exp=str((c + 3) % NVER)),
+                                          mk_apply((c + 1) % NVER, a1, exp=str(c))))
     # chains: upgrade, roll back, then a tarball that names the rolled-back-from version as predecessor
     a3 = [(0, 30, "0755", "o"), (3, 33, "0644", "n")]
     out.append("h 1 %s ; %s ; %s ; %s" % (fs0, mk_apply(2, a2), mk_rollback(), mk_apply(3, a3, prev="2o")))
@@ -313,6 +328,15 @@ def classify(case, impl, model):
                 prev = fields(si[k - 1]) if k else None
                 if prev is None or any(fa.get(x) != prev.get(x) for x in ("j", "cur", "sn", "fs")):
                     return "P", "inadmissible tarball changed installed state at op #%d: impl=%r model=%r" % (k, a, b)
+            if k < len(ops) and ops[k].startswith("apply") and fb.get("res") == "err" and fa.get("res") != "err":
+                kv = dict(x.split("=", 1) for x in ops[k].split()[1:])
+                before = fields(sm[k - 1]).get("cur") if k else case.split()[1]
+                why = ("declared predecessor id %s is not the installed version id %s (version strings are compared "
+                       "exactly; ids map to confusable strings, see harness vf18Versions)" % (kv["prev"][:-1], before)
+                       if kv["prev"] != "-" and kv["prev"][-1] == "o" and kv["prev"][:-1] != before else
+                       "the model refuses / fails it before any mutation")
+                return "P", ("apply at op #%d must leave the installed state untouched (%s) but the implementation went on: "
+                             "impl=%r model=%r" % (k, why, a, b))
             if fa.get("res") in ("ok", "rb:ok", "err:rolledback") and fa.get("fs") != fb.get("fs"):
                 return "P", ("op #%d reported %s but the artifact tree differs from the all-new / restored tree: impl=%r model=%r"
                              % (k, fa.get("res"), a, b))
